@@ -1,8 +1,8 @@
 (* C17 — Elitist optimizers never lose their best solution. *)
 From Coq Require Import String List ZArith Bool Arith.
-From PV Require Import Xnum Select PyLib Select_proofs Loop Loop_proofs Skeleton Skeleton_proofs.
-From PVGen Require Import Algos Expected GenSelect.
-From PVBridge Require Import AlgoBridge SelectBridge C16Main ElitMain.
+From PV Require Import Xnum Select PyLib Select_proofs Loop Loop_proofs Skeleton Skeleton_proofs ElitLang.
+From PVGen Require Import Algos Expected GenSelect ElitProgs.
+From PVBridge Require Import AlgoBridge SelectBridge C16Main ElitMain ElitProgBridge.
 
 (* the optimizers pinned as structurally elitist are still elitist in the skeletons regenerated from the source *)
 Theorem C17_pinned_set : forall n, In n pinned_elitist ->
@@ -34,6 +34,25 @@ Theorem C17_reported :
   exists n, In n (map (report A cost with_cost d) (pop_at A H step h0 p0 K)) /\ better cost d o n = false.
 Proof. intros. eapply elitist_reported; eauto. Qed.
 
+(* the judgement behind `WMap true` ("every slot's new agent is not worse than its incumbent"), made by T-algo's own flow analysis, is RE-DERIVED INSIDE COQ:
+   the element function of every map-style population write of every optimizer is extracted as a program (gen/ElitProgs.v: names, _greedy_select_agent,
+   model_copy, conditional expressions, best_agent([..]), inlined local functions and own methods, assignments, if with the test `x.cost < y.cost` kept, loops,
+   everything else opaque) and put through ElitLang's analysis, whose soundness is proved against a semantics in which every opaque value, test and loop
+   count is arbitrary.  (i) the extracted programs are exactly the WMap writes of the regenerated skeletons, in order; (ii) every write T-algo flags as keeping
+   is accepted; (iii) hence, whatever the numeric kernel does, its element function returns an agent whose internal cost is <= the incumbent's. *)
+Theorem C17_wmap_judgement_rederived :
+  forallb (fun sk => bl_eqb (wmap_flags (sk_step sk)) (map fst (lookup (sk_name sk) elit_programs))) all_skeletons = true /\
+  forallb (fun row => forallb (fun p => implb (fst p) (judge p)) (snd row)) elit_programs = true /\
+  (forall name progs e, In (name, progs) elit_programs -> In (true, Some e) progs ->
+     forall (c0 : Z) (r : env) (v : Z), (r 0%nat <= c0)%Z -> eval r e v -> (v <= c0)%Z).
+Proof. exact (conj programs_cover_the_skeletons (conj talgo_wmap_flags_rederived flagged_wmap_keeps_slot)). Qed.
+(* the analysis itself, for every program: accepted => no execution returns a worse agent *)
+Theorem C17_elit_analysis_sound : forall (c0 : Z) (fuel : nat) (e : exp) (r : env) (v : Z),
+  agood fuel (0%nat :: nil) e = true -> (r 0%nat <= c0)%Z -> eval r e v -> (v <= c0)%Z.
+Proof. exact accepted_program_keeps. Qed.
+
+Print Assumptions C17_wmap_judgement_rederived.
+Print Assumptions C17_elit_analysis_sound.
 Print Assumptions C17_pinned_set.
 Print Assumptions C17_greedy_regenerated.
 Print Assumptions C17_monotone.
